@@ -920,4 +920,171 @@ theorem assemble_in_order (parts : List Bytes) (off : Nat) (hoff : off + parts.f
       rw [this]
       simp
 
+/-! ### … for chunks in ANY arrival order -/
+
+theorem placeAt_length (buf b : Bytes) (o : Nat) (h : o + b.length ≤ buf.length) :
+    (placeAt buf o b).length = buf.length := by
+  simp [placeAt, List.length_take, List.length_drop]; omega
+
+theorem placeAt_getElem? (buf b : Bytes) (o i : Nat) (h : o + b.length ≤ buf.length) :
+    (placeAt buf o b)[i]? = if o ≤ i ∧ i < o + b.length then b[i - o]? else buf[i]? := by
+  unfold placeAt
+  have hl : (buf.take o).length = o := by rw [List.length_take]; omega
+  rw [List.getElem?_append, List.length_append, hl]
+  by_cases h1 : i < o + b.length
+  · rw [if_pos h1, List.getElem?_append, hl]
+    by_cases h2 : i < o
+    · rw [if_pos h2, List.getElem?_take, if_pos h2, if_neg (by omega)]
+    · rw [if_neg h2, if_pos ⟨by omega, h1⟩]
+  · rw [if_neg h1, List.getElem?_drop, if_neg (by omega)]
+    congr 1; omega
+
+/-- chunk `c` is a piece of the byte string `D` that starts at stream offset `start` -/
+def Piece (D : Bytes) (start : Nat) (c : Nat × Bytes) : Prop :=
+  start ≤ c.1 ∧ c.1 - start + c.2.length ≤ D.length ∧ ∀ j, j < c.2.length → c.2[j]? = D[c.1 - start + j]?
+
+def Covered (start : Nat) (L : List (Nat × Bytes)) (i : Nat) : Prop :=
+  ∃ c ∈ L, c.1 - start ≤ i ∧ i < c.1 - start + c.2.length
+
+theorem fold_place_length (D : Bytes) (start : Nat) (L : List (Nat × Bytes)) :
+    ∀ buf : Bytes, buf.length = D.length → (∀ c ∈ L, Piece D start c) →
+    (L.foldl (fun buf c => placeAt buf (c.1 - start) c.2) buf).length = D.length := by
+  induction L with
+  | nil => intro buf h _; exact h
+  | cons c L ih =>
+    intro buf h hp
+    rw [List.foldl_cons]
+    apply ih
+    · rw [placeAt_length _ _ _ (by have := (hp c List.mem_cons_self).2.1; omega)]; exact h
+    · intro c' hc'; exact hp c' (List.mem_cons_of_mem _ hc')
+
+/-- placing pieces of `D` in ANY order: every position that already held `D`'s byte or is covered by some piece
+    holds `D`'s byte afterwards -/
+theorem fold_place_correct (D : Bytes) (start : Nat) (L : List (Nat × Bytes)) :
+    ∀ buf : Bytes, buf.length = D.length → (∀ c ∈ L, Piece D start c) →
+    ∀ i, (buf[i]? = D[i]? ∨ Covered start L i) →
+    (L.foldl (fun buf c => placeAt buf (c.1 - start) c.2) buf)[i]? = D[i]? := by
+  induction L with
+  | nil =>
+    intro buf _ _ i h
+    cases h with
+    | inl h => exact h
+    | inr h => obtain ⟨c, hc, _⟩ := h; cases hc
+  | cons c L ih =>
+    intro buf hlen hp i h
+    rw [List.foldl_cons]
+    have hpc := hp c List.mem_cons_self
+    have hfit : c.1 - start + c.2.length ≤ buf.length := by rw [hlen]; exact hpc.2.1
+    apply ih _ (by rw [placeAt_length _ _ _ hfit]; exact hlen) (fun c' hc' => hp c' (List.mem_cons_of_mem _ hc'))
+    -- after placing `c`: position `i` is right if it was right or `c` covers it
+    have hget := placeAt_getElem? buf c.2 (c.1 - start) i hfit
+    by_cases hin : c.1 - start ≤ i ∧ i < c.1 - start + c.2.length
+    · left
+      rw [hget, if_pos hin, hpc.2.2 (i - (c.1 - start)) (by omega)]
+      congr 1; omega
+    · cases h with
+      | inl h => left; rw [hget, if_neg hin]; exact h
+      | inr h =>
+        obtain ⟨c', hc', hcov⟩ := h
+        cases hc' with
+        | head => exact absurd hcov hin
+        | tail _ hc'' => right; exact ⟨c', hc'', hcov⟩
+
+theorem pieces_withOffsets (start : Nat) (parts : List Bytes) : ∀ (pre : Bytes) (o : Nat), o = start + pre.length →
+    ∀ post : Bytes, ∀ c ∈ withOffsets o parts, Piece (pre ++ parts.flatten ++ post) start c := by
+  induction parts with
+  | nil => intro pre o _ post c hc; cases hc
+  | cons b bs ih =>
+    intro pre o ho post c hc
+    simp only [withOffsets, List.mem_cons] at hc
+    cases hc with
+    | inl h =>
+      subst h
+      refine ⟨by simp; omega, by simp; omega, ?_⟩
+      intro j hj
+      simp only at hj
+      simp only [List.flatten_cons]
+      have : o - start + j = pre.length + j := by omega
+      rw [this, List.append_assoc, List.getElem?_append_right (by omega), List.append_assoc,
+        List.getElem?_append_left (by omega)]
+      congr 1; omega
+    | inr h =>
+      have := ih (pre ++ b) (o + b.length) (by simp; omega) post c h
+      simpa [List.append_assoc] using this
+
+theorem covered_withOffsets (start : Nat) (parts : List Bytes) : ∀ (k o : Nat), o = start + k →
+    ∀ i, k ≤ i → i < k + parts.flatten.length → Covered start (withOffsets o parts) i := by
+  induction parts with
+  | nil => intro k o _ i h1 h2; simp at h2; omega
+  | cons b bs ih =>
+    intro k o ho i h1 h2
+    simp only [List.flatten_cons, List.length_append] at h2
+    by_cases hb : i < k + b.length
+    · exact ⟨(o, b), by simp [withOffsets], by simp; omega, by simp; omega⟩
+    · obtain ⟨c, hc, hcov⟩ := ih (k + b.length) (o + b.length) (by omega) i (by omega) (by omega)
+      exact ⟨c, by simp [withOffsets, hc], hcov⟩
+
+theorem min_comm3 (z x y : Nat) : min (min z x) y = min (min z y) x := by omega
+theorem max_comm3 (z x y : Nat) : max (max z x) y = max (max z y) x := by omega
+
+/-- `read_to_end`: chunks `(offset, bytes)` read UNORDERED — any chunking of the remainder of the stream from the
+    current read position `off`, in any arrival order — are assembled into exactly that remainder -/
+theorem assemble_any_order (parts : List Bytes) (off : Nat) (chunks : List (Nat × Bytes))
+    (hperm : chunks.Perm (withOffsets off parts)) (hoff : off + parts.flatten.length < 2 ^ 64 - 1) :
+    assemble chunks = parts.flatten := by
+  have hmin : chunks.foldl (fun m c => min m c.1) (2 ^ 64 - 1)
+      = (withOffsets off parts).foldl (fun m c => min m c.1) (2 ^ 64 - 1) :=
+    hperm.foldl_eq' (fun x _ y _ z => min_comm3 z x.1 y.1) _
+  have hmax : chunks.foldl (fun m c => max m (c.1 + c.2.length)) 0
+      = (withOffsets off parts).foldl (fun m c => max m (c.1 + c.2.length)) 0 :=
+    hperm.foldl_eq' (fun x _ y _ z => max_comm3 z _ _) _
+  by_cases hz : parts.flatten.length = 0
+  · -- nothing to read
+    have hflat : parts.flatten = [] := List.eq_nil_of_length_eq_zero hz
+    have hin := assemble_in_order parts off hoff
+    unfold assemble at hin ⊢
+    simp only [hmin, hmax] at hin ⊢
+    rw [foldl_max_withOffsets parts off 0 (Nat.zero_le _)] at hin ⊢
+    by_cases hp : parts = []
+    · subst hp
+      have : chunks = [] := by simpa [withOffsets] using hperm.eq_nil
+      simp [withOffsets]
+    · have hstart : (withOffsets off parts).foldl (fun m c => min m c.1) (2 ^ 64 - 1) = off := by
+        cases parts with
+        | nil => exact absurd rfl hp
+        | cons b bs =>
+          simp only [withOffsets, List.foldl_cons]
+          have : min (2 ^ 64 - 1) off = off := by omega
+          rw [this]; exact foldl_min_withOffsets bs _ _ (by omega)
+      rw [hstart]; simp [hp, hflat]
+  · have hp : parts ≠ [] := by intro h; subst h; simp at hz
+    have hstart : (withOffsets off parts).foldl (fun m c => min m c.1) (2 ^ 64 - 1) = off := by
+      cases parts with
+      | nil => exact absurd rfl hp
+      | cons b bs =>
+        simp only [withOffsets, List.foldl_cons]
+        have : min (2 ^ 64 - 1) off = off := by omega
+        rw [this]; exact foldl_min_withOffsets bs _ _ (by omega)
+    unfold assemble
+    simp only [hmin, hmax, hstart]
+    rw [foldl_max_withOffsets parts off 0 (Nat.zero_le _)]
+    simp only [hp, if_false]
+    have hc : ¬ (off = 2 ^ 64 - 1 ∨ off ≥ off + parts.flatten.length) := by omega
+    rw [if_neg hc]
+    have hn : off + parts.flatten.length - off = parts.flatten.length := by omega
+    rw [hn]
+    have hpieces : ∀ c ∈ chunks, Piece parts.flatten off c := by
+      intro c hc
+      have := pieces_withOffsets off parts [] off (by simp) [] c (hperm.subset hc)
+      simpa using this
+    apply List.ext_getElem?
+    intro i
+    by_cases hi : i < parts.flatten.length
+    · apply fold_place_correct parts.flatten off chunks _ (by simp) hpieces i
+      right
+      obtain ⟨c, hc, hcov⟩ := covered_withOffsets off parts 0 off (by simp) i (Nat.zero_le _) (by omega)
+      exact ⟨c, hperm.symm.subset hc, hcov⟩
+    · have hl := fold_place_length parts.flatten off chunks (List.replicate parts.flatten.length 0) (by simp) hpieces
+      rw [List.getElem?_eq_none (by omega), List.getElem?_eq_none (by omega)]
+
 end Compio.QuicWakers
